@@ -2,6 +2,7 @@ package props
 
 import (
 	"fmt"
+	"verifsim/machine"
 
 	"verifsim/dmgref"
 	"verifsim/engine"
@@ -23,7 +24,7 @@ func (c13) Budget(tier string) int {
 	if tier == "thorough" {
 		return 30000
 	}
-	return 700
+	return 5600
 }
 
 func (c13) Describe() engine.Info {
@@ -31,7 +32,7 @@ func (c13) Describe() engine.Info {
 		Rule: "scenario = 1..3 frames with 0..8 LCDC writes (bit 7 toggled or kept; other bits random) at uniformly random cycles or placed by the reference counter at a mode boundary -1/0/+1 of a random line, plus 0..6 noise writes to FF44/FF41/FF45/FF42/FF43/FF4A/FF4B. Class sweep: the LCD is switched off at every cycle offset of a line (index selects line and offset) and on again after a random pause. " +
 			"Oracle: LY and STAT mode after every machine cycle equal the reference line/mode counter (first line 112 cycles, then 114; modes 2/3/0 = 20/41/53; 10 lines of mode 1; off => LY 0, mode 0 at once). Signature = (event kind, reference mode at the event, line class, position class).",
 		Assumptions:    []string{"a write at boundary b is the guest write in cycle b+1", "mode 3 length is the fixed 41 cycles of the statement"},
-		RequiredProbes: []string{"lcd_off_in_mode2", "lcd_off_in_mode3", "lcd_off_in_mode0", "lcd_off_in_mode1", "lcd_on", "ly_write_while_on", "frame_wrap"},
+		RequiredProbes: []string{"lcd_off_in_mode2", "lcd_off_in_mode3", "lcd_off_in_mode0", "lcd_off_in_mode1", "lcd_on", "ly_write_while_on", "lcdc_rewritten_on_during_a_line_0", "frame_wrap"},
 		RealComponents: realComponents, StubComponents: stubComponents,
 		Sweeps: []string{"LCD off at each of the 114 cycle offsets of a line (class sweep, lines sampled)"},
 	}
@@ -86,6 +87,86 @@ func genPPUEvents(r *engine.Rand, sc *engine.Scenario, total uint64, toggles, no
 	}
 }
 
+// genVideoNoise adds writes that the line/mode schedule and the request conditions do not depend on:
+// scroll and window position, palettes, LCDC rewrites that leave bit 7 as it is, an object table
+// (oam_seed: objects on most lines, installed before the run) - uniformly and placed around the mode
+// boundaries of lines. extra lists further (address, value) pairs to rewrite (C14: the constant LYC).
+func genVideoNoise(r *engine.Rand, sc *engine.Scenario, total uint64, n int, extra [][2]int) {
+	if r.Chance(2, 3) {
+		sc.SetP("oam_seed", int64(r.U64()>>1))
+	}
+	for i := 0; i < n; i++ {
+		at := uint64(r.Intn(int(total)))
+		if r.Chance(1, 2) {
+			// near a mode boundary of some line (the grid of the power-on frame; later switches move it)
+			line := r.Intn(154 * int(total/17556+1))
+			at = uint64(1 + line*114 - 2 + engine.Pick(r, []int{0, 19, 20, 21, 58, 59, 60, 61, 62, 63, 64, 65, 70, 112, 113}))
+			if at >= total {
+				at = uint64(r.Intn(int(total)))
+			}
+		}
+		ev := engine.Event{At: at, K: "bus_w"}
+		switch k := r.Intn(10); {
+		case k < 3:
+			ev.A, ev.V = 0xff43, r.Byte() // SCX
+			if r.Bool() {
+				ev.V = uint8(r.Intn(8))
+			}
+		case k < 4:
+			ev.A, ev.V = 0xff42, r.Byte()
+		case k < 5:
+			ev.A, ev.V = engine.Pick(r, []uint16{0xff4a, 0xff4b}), r.Byte()
+		case k < 6:
+			ev.A, ev.V = engine.Pick(r, []uint16{0xff47, 0xff48, 0xff49}), r.Byte()
+		case k < 8 || len(extra) == 0:
+			ev.A, ev.V, ev.S = 0xff40, r.Byte(), "keep" // bit 7 is filled in from the schedule
+		default:
+			x := extra[r.Intn(len(extra))]
+			ev.A, ev.V = uint16(x[0]), uint8(x[1])
+		}
+		sc.Events = append(sc.Events, ev)
+	}
+	sortEvents(sc.Events)
+	on := true
+	for i := range sc.Events {
+		e := &sc.Events[i]
+		if i > 0 && e.At <= sc.Events[i-1].At {
+			e.At = sc.Events[i-1].At + 1
+		}
+		if e.A == 0xff40 {
+			if e.S == "keep" {
+				e.V &^= 0x80
+				if on {
+					e.V |= 0x80
+				}
+			} else {
+				on = e.V&0x80 != 0
+			}
+		}
+	}
+}
+
+// installObjects fills OAM (side-effect-free poke) with objects spread over the screen.
+func installObjects(m *machine.Machine, seed int64) {
+	if seed == 0 {
+		return
+	}
+	r := engine.NewRand(uint64(seed))
+	var o [0xa0]byte
+	for i := 0; i < 40; i++ {
+		o[i*4] = uint8(r.Intn(176))
+		o[i*4+1] = uint8(r.Intn(176))
+		o[i*4+2] = r.Byte()
+		o[i*4+3] = r.Byte()
+	}
+	if r.Chance(1, 4) {
+		for i := 0; i < 40; i++ {
+			o[i*4] = uint8(16 + r.Intn(8)) // everything on the same few lines
+		}
+	}
+	m.OAM.VerifPoke(o)
+}
+
 func sortU64(x []uint64) {
 	for i := 1; i < len(x); i++ {
 		for j := i; j > 0 && x[j] < x[j-1]; j-- {
@@ -117,6 +198,9 @@ func (c13) Generate(r *engine.Rand, index int, tier string) *engine.Scenario {
 	sc.Class = "random"
 	total := uint64(r.Range(1, 3))*17556 + uint64(r.Intn(2000))
 	genPPUEvents(r, sc, total, r.Intn(9), r.Intn(7), r.Bool())
+	if index%2 == 1 {
+		genVideoNoise(r, sc, total, r.Range(2, 40), nil)
+	}
 	sc.Cycles = total
 	return sc
 }
@@ -128,6 +212,7 @@ func (c13) Execute(sc *engine.Scenario) *engine.Result {
 		return res
 	}
 	m.Park()
+	installObjects(m, sc.P("oam_seed", 0))
 	var ref dmgref.PPUTiming
 	ref.SwitchOn()
 	dg := engine.NewDigest()
@@ -182,6 +267,8 @@ func (c13) Execute(sc *engine.Scenario) *engine.Result {
 					res.Probe("lcd_on")
 					res.Sig("on")
 					ref.SwitchOn()
+				case was && now && ref.Line == 0 && ref.Pos < 112 && m.N < 17556*4:
+					res.Probe("lcdc_rewritten_on_during_a_line_0")
 				}
 				res.Fault("lcdc_write")
 			} else {
